@@ -23,7 +23,7 @@ ARG_MC = {
                 handlers=['none', 'error'], maxlen=(2, 3), thorough_decls=[1, 3, 5, 7, 8, 9]),
     'C06': dict(decls=[7], policy=['opts', 'cmds', 'clusters'], popts=['<<>>', '<<"PassDoubleDash">>'], handlers=['none'], maxlen=(3, 5), thorough_decls=[7, 3]),
     'C07': dict(decls=[2, 3, 10], policy=['opts', 'cmds', 'unknown', 'near'], popts=['<<>>', '<<"IgnoreUnknown">>'],
-                handlers=['none', 'identity', 'dropnext', 'inject', 'error'], maxlen=(2, 3), thorough_decls=[2, 3, 10]),
+                handlers=['none', 'identity', 'dropnext', 'dropall', 'inject', 'error'], maxlen=(2, 3), thorough_decls=[2, 3, 10]),
     'C08': dict(decls=[13, 10], policy=['opts', 'cmds', 'odd'], popts=['<<>>', '<<"PassDoubleDash">>'], handlers=['none'], maxlen=(3, 4), thorough_decls=[3, 5, 10, 13]),
     'C09': dict(decls=[3, 5, 7], policy=['opts', 'cmds', 'unknown', 'help'], popts=['<<>>', '<<"HelpFlag">>', '<<"HelpFlag", "PrintErrors", "PassDoubleDash">>'],
                 handlers=['none'], maxlen=(3, 4), thorough_decls=[3, 5, 7, 10]),
